@@ -42,9 +42,11 @@ func (p *printer) printFile(f *ir.File) {
 
 	p.writef("BundleImports: []ir.BundleImport{\n")
 	for _, imp := range f.BundleImports {
+		p.writef("{\n")
 		p.writef("Line: %d,\n", imp.Line)
 		p.writef("PkgPath: %q,\n", imp.PkgPath)
-		p.writef("Prefix: %q,\n", imp.PkgPath)
+		p.writef("Prefix: %q,\n", imp.Prefix)
+		p.writef("},\n")
 	}
 	p.writef("},\n")
 
